@@ -223,6 +223,9 @@ func (w *World) IsAlive(name string) bool {
 }
 
 // Launches returns the number of launches of name so far.
+// StartWall is the wall-clock instant event times are relative to.
+func (w *World) StartWall() time.Time { return w.start }
+
 func (w *World) Launches(name string) int {
 	w.mu.Lock()
 	defer w.mu.Unlock()
@@ -464,7 +467,7 @@ func (w *World) Yield(point, name string) {
 
 // alwaysRecorded yield points are logged on every pass (they are gate /
 // ordering events for the oracles).
-var alwaysRecorded = map[string]bool{"runner.released": true, "shutdown.enter": true, "shutdown.return": true, "runner.afterRun": true, "shutdown.afterPrepare": true, "run.afterBackoff": true}
+var alwaysRecorded = map[string]bool{"runner.released": true, "shutdown.enter": true, "shutdown.return": true, "runner.afterRun": true, "shutdown.afterPrepare": true, "run.afterBackoff": true, "stop.afterCancel": true}
 
 // AliveInfo describes one live simulated command.
 type AliveInfo struct {
